@@ -1,6 +1,8 @@
 /- `zvspec gen <seed> <count> <outroot>`: write `count` generated schema sets (seed, seed+1, …) as
    directories `<outroot>/c<i>/` holding the XML files, `meta.txt` and the reference observation `ref.obs`. -/
 import ZeepVerif.Spec.Gen
+import ZeepVerif.Spec.Instance
+import ZeepVerif.Driver.Util
 
 namespace ZeepVerif.Driver.SpecGen
 open ZeepVerif.Spec
@@ -51,6 +53,13 @@ def writeCase (root : String) (idx : Nat) (seed : Nat) (cyclic small : Bool) (ws
   IO.FS.writeFile s!"{dir}/meta.txt" (s!"start={startName}\nseed={seed}\ntries={tries}\nfeatures={" ".intercalate (features s)}\n" ++
     String.join (s.uris.map (fun u => s!"uri={u}\n")) ++
     String.join ((Ref.reachable s).map (fun i => s!"reachable={((s.files[i]?).map (·.fileName)).getD ""}\n")))
+  -- instance documents: schema-valid ones (C03/C04) and ones with facet violations mixed in (C07)
+  let instLines (violate : Nat) (per : Nat) (sd : Nat) : String :=
+    let (is, _) := (Inst.instances { s := s, violatePct := violate } per).run { seed := seed * 7919 + sd }
+    String.join (is.zipIdx.map fun (i, k) =>
+      s!"INST\t{k}\t{i.uri}\t{i.typeName}\tvalid={if i.valid then 1 else 0}\t{ZeepVerif.Driver.hex i.xml}\n")
+  IO.FS.writeFile s!"{dir}/inst.txt" (instLines 0 3 1)
+  IO.FS.writeFile s!"{dir}/inst7.txt" (instLines 60 4 2)
   IO.FS.writeFile s!"{dir}/ref.obs" (String.join ((Ref.structLines s ++ Ref.wsdlLines s).map (· ++ "\n")))
 
 def main (seed count : Nat) (root : String) (cyclic : Bool := false) (small : Bool := false) (wsdl : Bool := false) : IO UInt32 := do
